@@ -4,6 +4,7 @@ from __future__ import annotations
 import fcntl
 import hashlib
 import os
+import shutil
 import subprocess
 import sys
 
@@ -56,10 +57,22 @@ def build_rust():
             return out
         env = dict(os.environ, PYO3_PYTHON=PY, CARGO_NET_OFFLINE="true",
                    CARGO_TARGET_DIR=os.path.join(BUILD, "rust-target"))
-        p = subprocess.run(["cargo", "build", "--release", "--offline"], cwd=os.path.join(REPO, "rust"),
-                           env=env, stdout=subprocess.PIPE, stderr=subprocess.STDOUT, text=True)
+        # cargo decides freshness by comparing source mtimes with its last build in the (shared) target directory:
+        # a tree whose files are OLDER than that build (a checkout, an extracted archive) would be taken for
+        # unchanged.  Build from a staged copy whose files are all new.
+        stage = os.path.join(BUILD, "rust-src", hv)
+        shutil.rmtree(stage, ignore_errors=True)
+        shutil.copytree(os.path.join(REPO, "rust"), stage, copy_function=shutil.copyfile,
+                        ignore=shutil.ignore_patterns("target"))
+        try:
+            p = subprocess.run(["cargo", "build", "--release", "--offline"], cwd=stage,
+                               env=env, stdout=subprocess.PIPE, stderr=subprocess.STDOUT, text=True)
+        finally:
+            shutil.rmtree(stage, ignore_errors=True)
         if p.returncode != 0:
             raise Machinery("cargo build failed:\n" + p.stdout[-3000:])
+        if "Compiling _pendulum" not in p.stdout and "Compiling pendulum" not in p.stdout:
+            raise Machinery("cargo did not recompile the extension:\n" + p.stdout[-1500:])
         src = os.path.join(BUILD, "rust-target", "release", "lib_pendulum.so")
         os.makedirs(os.path.dirname(out), exist_ok=True)
         tmp = out + ".tmp%d" % os.getpid()
